@@ -69,6 +69,10 @@ def run_readn(res, work, tier, seed):
                     runs.append({"run": rid, "cfg": {"entry": entry, "script": script, "count": count,
                                                      "attempts": 10, "prep": prep}, "ops": []})
     # back-to-back 1 MiB reads on the same codec are covered by the long-stream part (codec.footprint, 'read' method)
+    # the second hard error of the scripts (-3) is a different std::io::ErrorKind from run to run: only Interrupted is retried
+    kinds = ["BrokenPipe", "WouldBlock", "TimedOut", "UnexpectedEof", "WriteZero", "InvalidData", "ConnectionReset"]
+    for r in runs:
+        r["cfg"]["hard_b"] = kinds[r["run"] % len(kinds)] if -3 in r["cfg"]["script"] else rng.choice(kinds)
     trace = core.drive("readn", runs, work, "readn")
     tv = tlc.validate_trace("ReadNTrace", "ReadNTrace.cfg", trace, os.path.join(work, "tv"), timeout=3000)
     res.add_tv(tv, {r["run"]: r for r in runs}, "readn", "every enumerated configuration + random", crash_props=("C17",))
